@@ -39,3 +39,33 @@ func VC05Shift(c *Cache, d, total time.Duration) {
 		f.now = func() time.Time { return time.Now().Add(total) }
 	}
 }
+
+// VC05PrefetchIdle waits until the background refresh queue has nothing queued and no entry
+// holds a prefetch claim (a claim is released when the refresh replaced the entry, failed or was
+// dropped), so that a refresh started by one packet of a history is finished before the next
+// packet is served.  Returns false if that does not happen within the limit.
+func VC05PrefetchIdle(c *Cache, limit time.Duration) bool {
+	if c == nil || c.prefetchQueue == nil {
+		return true
+	}
+	deadline := time.Now().Add(limit)
+	for {
+		busy := len(c.prefetchQueue.items) > 0
+		if !busy {
+			c.store.ForEach(func(_ bool, _ uint64, e *CacheEntry) bool {
+				if e.prefetch.Load() {
+					busy = true
+					return false
+				}
+				return true
+			})
+		}
+		if !busy {
+			return true
+		}
+		if time.Now().After(deadline) {
+			return false
+		}
+		time.Sleep(200 * time.Microsecond)
+	}
+}
